@@ -16,6 +16,7 @@ import json
 import os
 import re
 import sys
+import threading
 import warnings
 
 spec = json.loads(sys.argv[1])
@@ -24,7 +25,7 @@ import c05_shim  # noqa: E402
 
 LOC = os.path.abspath(spec["loc"])
 DIGEST = {}
-TMP_RE = re.compile(r"\.thread-\d+-pid-(\d+)$")
+TMP_RE = re.compile(r"\.thread-(\d+)-pid-(\d+)$")
 
 
 def canon(r):
@@ -34,7 +35,7 @@ def canon(r):
         m = TMP_RE.search(p)
         suffix = ""
         if m:
-            suffix = ".T%s" % m.group(1)
+            suffix = ".T%s_%s" % (m.group(2), m.group(1))
             p = p[:m.start()]
         out.append(DIGEST.get(p, p) + suffix)
     return "/".join(out)
@@ -114,7 +115,7 @@ def run_session(spec):
         cf = mem.cache(vmod.f, cache_validation_callback=cbs[spec.get("cb")])
         for act in spec["actions"]:
             a = act["a"]
-            del vmod.CALLS[:]
+            mark = len(vmod.CALLS)
             try:
                 if a == "call":
                     r = {"ok": cf(act["k"])}
@@ -156,12 +157,13 @@ def run_session(spec):
                     r = {"harness_error": "unknown action %r" % a}
             except Exception as e:  # the outcome of the action, reported
                 r = {"raise": type(e).__name__, "msg": str(e)[:200]}
-            r["computed"] = list(vmod.CALLS)
+            r["computed"] = [x for (who, x) in vmod.CALLS[mark:] if who == threading.get_ident()]
             results.append(r)
     except BaseException as e:  # construction failed
         results.append({"raise": type(e).__name__, "msg": str(e)[:200], "where": "init"})
     c05_shim.finished()
-    out = {"results": results, "pid": os.getpid(), "log": c05_shim.STATE["log"]}
+    out = {"results": results, "pid": os.getpid(), "log": c05_shim.current_log(),
+           "wid": "%d_%d" % (os.getpid(), id(threading.current_thread()))}
     if spec.get("state"):
         out["state"] = dump_state()
     if pre_state is not None:
@@ -187,7 +189,28 @@ def restore(snapshot):
         c05_shim.resume()
 
 
-if spec.get("variants"):
+if spec.get("threads"):
+    # several participants in ONE process: one thread each, each with its own scheduler channel
+    outs = [None] * len(spec["threads"])
+
+    def worker(i, sub):
+        c05_shim.bind_thread(sub["rfd"], sub["wfd"])
+        merged = dict(spec)
+        merged.update(sub)
+        try:
+            outs[i] = run_session(merged)
+        except BaseException as e:
+            outs[i] = {"harness_error": repr(e), "pid": os.getpid()}
+            c05_shim.finished()
+
+    ths = [threading.Thread(target=worker, args=(i, sub)) for i, sub in enumerate(spec["threads"])]
+    for th in ths:
+        th.start()
+    for th in ths:
+        th.join()
+    sys.stdout.write(json.dumps({"threads": outs}) + "\n")
+    sys.stdout.flush()
+elif spec.get("variants"):
     # several read-back sessions on the same crashed directory: each runs in a forked child of this
     # (not yet used) interpreter -- fresh _FUNCTION_HASHES, own pid -- after the directory was restored
     res = {}
